@@ -44,7 +44,7 @@ func (s Spec) name() string {
 
 func (s Spec) bodyFails() bool {
 	switch s.Body {
-	case "fail1", "fail2", "append", "nest-fail", "nest-retfail":
+	case "fail1", "fail2", "append", "nest-fail", "nest-retfail", "spawn-fail":
 		return true
 	}
 	return false
@@ -68,6 +68,11 @@ func script(s Spec) string {
 		body = []string{"probe --id=body.c1", `pip:run --name=inner --sandbox=retfail:nested.sb --body=\"probe --id=never.c1\"`, "probe --id=body.c2"}
 	case "nest-retok":
 		body = []string{"probe --id=body.c1", `pip:run --name=inner --sandbox=retok:nested.sb --body=\"probe --id=never.c1\"`, "probe --id=body.c2"}
+	case "spawn-fail":
+		// one command starts two concurrent tasks: a slow one that succeeds and one that fails
+		body = []string{"probe --id=body.c1 --spawn=fail"}
+	case "spawn-ok":
+		body = []string{"probe --id=body.c1 --spawn=ok", "probe --id=body.c2"}
 	case "nest-fail":
 		body = []string{"probe --id=body.c1", `pip:run --name=inner --body=\"probe --id=nested.c1 --fail=return\"`, "probe --id=body.c2"}
 	}
@@ -172,6 +177,9 @@ func judge(sp Spec, o *obs) func(x *explore.Exec) *explore.Verdict {
 				}
 			}
 		}
+		if sp.Body == "spawn-ok" && len(w.EventsOf("nested.")) != 4 {
+			return v("nested-task-incomplete", "tasks spawned by the body finish", "spawned task events: %d", len(w.EventsOf("nested.")))
+		}
 		if (sp.Body == "nest-ok" || sp.Body == "nest-retok") && len(w.EventsOf("nested.")) != 2 {
 			return v("nested-task-incomplete", "tasks spawned by the body finish", "nested task events: %d", len(w.EventsOf("nested.")))
 		}
@@ -197,12 +205,20 @@ func programs(thorough bool) []Spec {
 		b = 1
 	}
 	var ps []Spec
-	for _, body := range []string{"ok", "fail1", "fail2", "append", "nest-ok", "nest-fail", "nest-retfail", "nest-retok"} {
+	for _, body := range []string{"ok", "fail1", "fail2", "append", "nest-ok", "nest-fail", "nest-retfail", "nest-retok", "spawn-fail", "spawn-ok"} {
 		for mask := 0; mask < 8; mask++ {
 			s := Spec{Body: body, Success: mask&1 != 0, Fail: mask&2 != 0, Finally: mask&4 != 0, Bound: b}
 			if strings.HasPrefix(body, "nest") {
 				s.Bound = 0
 				if mask != 7 && mask != 0 && mask != 4 && !thorough {
+					continue
+				}
+			}
+			if strings.HasPrefix(body, "spawn") {
+				// three concurrent threads (two spawned tasks and the closing scope): free switches only,
+				// no handler / the fail handler (all handlers: spawn-ok; finally only: thorough)
+				s.Bound = 0
+				if mask != 0 && mask != 2 && !(mask == 7 && body == "spawn-ok") && !(mask == 4 && thorough) {
 					continue
 				}
 			}
@@ -289,7 +305,7 @@ func replay(wj json.RawMessage) (*fw.Violation, error) {
 
 func init() {
 	fw.Register(&fw.Check{ID: "C16", Level: "model_checking",
-		Rule: "programs = body {succeeds, fails at command 1 / 2, appends an error, spawns a nested task that succeeds / fails, in the self sandbox or in a sandbox that reports failure only through its return value} x every subset of {success, fail, finally} handlers x one failing handler; the script `pip:try ...` followed by another command is fed to the real terminal loop of a mock application bootstrapped per execution, probe commands log begin/end; every schedule within the bound (quick: free context switches at blocking points; thorough: 1 preemption, nested bodies free switches only) with a happens-before state cache; oracle: which handlers ran, handler begin after the end of the body and of every task it spawned, error state of the surrounding scope, the script continuing after the block, no panic, no deadlock; for programs with a failing handler additionally reachability over the explored schedule set: some schedule runs the finally handler (resp. the matching handler when finally is the failing one). states = distinct schedule traces",
+		Rule: "programs = body {succeeds, fails at command 1 / 2, appends an error, spawns a nested task that succeeds / fails, in the self sandbox or in a sandbox that reports failure only through its return value, or two concurrent tasks one of which fails} x every subset of {success, fail, finally} handlers x one failing handler; the script `pip:try ...` followed by another command is fed to the real terminal loop of a mock application bootstrapped per execution, probe commands log begin/end; every schedule within the bound (quick: free context switches at blocking points; thorough: 1 preemption, nested bodies free switches only) with a happens-before state cache; oracle: which handlers ran, handler begin after the end of the body and of every task it spawned, error state of the surrounding scope, the script continuing after the block, no panic, no deadlock; for programs with a failing handler additionally reachability over the explored schedule set: some schedule runs the finally handler (resp. the matching handler when finally is the failing one). states = distinct schedule traces",
 		Run: run, Replay: replay,
 		Assumptions: []string{"the finally handler is submitted first; when it fails the remaining handlers are not started (the handler failure is what is reported)", "accesses to objects outside the focus packages do not order executions in the happens-before cache (declared reduction)"}})
 }
